@@ -28,7 +28,7 @@ Proof. constructor; cbn; intros; try discriminate. Qed.
 
 (* ----- what a lifecycle step does to the entry and which parameters it installs ----- *)
 Definition entry_rel (e e' : option entry) : Prop :=
-  e' = None \/ e' = e \/ exists en rq fq, e = Some en /\ e' = Some (set_queues en rq fq) /\ (rq = true -> rdy_q en = true) /\ (forall r, fq = Some r -> is_fail en = true).
+  e' = None \/ e' = e \/ exists en rq fq, e = Some en /\ e' = Some (set_queues en rq fq) /\ (rq = true -> rdy_q en = true) /\ (forall r, fq = Some r -> is_fail en = true) /\ (fq = None \/ fq = fail_q en).
 
 Lemma set_queues_pay_facts c en rq fq :
   fee_sufficient (pol c) (recv (set_queues en rq fq)) (e_deliver (set_queues en rq fq)) = fee_sufficient (pol c) (recv en) (e_deliver en) /\
@@ -64,18 +64,18 @@ Lemma select_poll_entry_ok c li base hgt tnow d e sel na :
 Proof.
   intros He. unfold select_poll. destruct e as [en|]; [|unfold adv_entry_ok, stay, entry_rel; cbn; split; auto; intros; discriminate].
   destruct (He en eq_refl) as (HE & Hli).
-  assert (R : forall fq, (forall r, fq = Some r -> is_fail en = true) -> entry_rel (Some en) (Some (set_queues en false fq))).
-  { intros fq Hfq. right; right. exists en, false, fq. split; [reflexivity|]. split; [reflexivity|]. split; [discriminate|exact Hfq]. }
+  assert (R : forall fq, (forall r, fq = Some r -> is_fail en = true) -> (fq = None \/ fq = fail_q en) -> entry_rel (Some en) (Some (set_queues en false fq))).
+  { intros fq Hfq Hor. right; right. exists en, false, fq. split; [reflexivity|]. split; [reflexivity|]. split; [discriminate|]. split; [exact Hfq|exact Hor]. }
   destruct (rdy_q en) eqn:Eq, (fail_q en) as [r|] eqn:Ef.
   - destruct sel.
     + assert (Hfq : forall r0, Some r = Some r0 -> is_fail en = true) by (intros ? _; exact (ei_failq c en HE r Ef)).
       destruct (go_pay_spec c li base hgt tnow en na HE Eq Hli (Some r) Hfq) as (A1 & A2 & A3 & A4 & A5).
-      split; [rewrite A1; apply R; exact Hfq|].
+      split; [rewrite A1; apply R; [exact Hfq|right; reflexivity]|].
       intros e' He' _. rewrite A1 in He'. inversion He'; subst. exact A5.
     + apply do_resolve_entry_ok.
   - assert (Hfq : forall r0, @None response = Some r0 -> is_fail en = true) by (intros; discriminate).
     destruct (go_pay_spec c li base hgt tnow en na HE Eq Hli None Hfq) as (A1 & A2 & A3 & A4 & A5).
-    split; [rewrite A1; apply R; exact Hfq|].
+    split; [rewrite A1; apply R; [exact Hfq|left; reflexivity]|].
     intros e' He' _. rewrite A1 in He'. inversion He'; subst. exact A5.
   - apply do_resolve_entry_ok.
   - unfold adv_entry_ok, stay, entry_rel; cbn. split; [auto|]. intros e' He' _. inversion He'; subst. auto.
@@ -125,7 +125,7 @@ Qed.
 
 Lemma EInv_entry_rel c e e' : entry_rel (Some e) (Some e') -> EInv c e -> EInv c e' /\ info_of e' = info_of e /\ recv e' = recv e /\ e_deliver e' = e_deliver e /\ e_inv_amount e' = e_inv_amount e.
 Proof.
-  intros [H|[H|(en & rq & fq & H1 & H2 & H3 & H4)]] HE; [discriminate|inversion H; subst; auto 10|].
+  intros [H|[H|(en & rq & fq & H1 & H2 & H3 & H4 & _)]] HE; [discriminate|inversion H; subst; auto 10|].
   inversion H1; inversion H2; subst. split; [apply EInv_set_queues; auto|]. unfold set_queues, info_of; cbn. auto.
 Qed.
 
